@@ -168,10 +168,25 @@ pub extern "C" fn vh_c06_strings() {
     }
 }
 
-/// out[j..] is the SMT-LIB replace_all image of s[i..] (i, j concrete; contents symbolic)
+/// out[j..] is the SMT-LIB replace_all image of s[i..] (i, j concrete; contents symbolic; memoised on (i, j))
 fn ra_ok(s: &[u32], t: &[u32], r: &[u32], out: &[u32], i: usize, j: usize) -> bool {
+    let w = out.len() + 1;
+    let mut done = vec![false; (s.len() + 1) * w];
+    let mut val = vec![false; (s.len() + 1) * w];
+    ra_rec(s, t, r, out, i, j, &mut done, &mut val)
+}
+
+fn ra_rec(s: &[u32], t: &[u32], r: &[u32], out: &[u32], i: usize, j: usize, done: &mut Vec<bool>, val: &mut Vec<bool>) -> bool {
     let n = s.len();
     let m = t.len();
+    let w = out.len() + 1;
+    if j > out.len() {
+        return false;
+    }
+    let key = i * w + j;
+    if done[key] {
+        return val[key];
+    }
     let mut none = true;
     let mut ok = false;
     let mut k = i;
@@ -181,13 +196,17 @@ fn ra_ok(s: &[u32], t: &[u32], r: &[u32], out: &[u32], i: usize, j: usize) -> bo
         let seg = k - i;
         if j + seg + r.len() <= out.len() {
             let copy = eqv(&out[j..j + seg], &s[i..k]) & eqv(&out[j + seg..j + seg + r.len()], r);
-            ok = ok | (here & none & copy & ra_ok(s, t, r, out, k + m, j + seg + r.len()));
+            let rest = ra_rec(s, t, r, out, k + m, j + seg + r.len(), done, val);
+            ok = ok | (here & none & copy & rest);
         }
         none = none & !here;
         k += 1;
     }
-    let rest = if out.len() >= j && out.len() - j == n - i { eqv(&out[j..], &s[i..]) } else { false };
-    ok | (none & rest)
+    let rest = if out.len() - j == n - i { eqv(&out[j..], &s[i..]) } else { false };
+    let res = ok | (none & rest);
+    done[key] = true;
+    val[key] = res;
+    res
 }
 
 // ---------------------------------------------------------------------------------------------
